@@ -66,12 +66,24 @@ def gen_angle(r, style):
     raise ValueError(style)
 
 
-STYLES = ["small", "huge", "pi-multiple", "branch", "dyadic", "tiny", "mixed"]
+ANGLE_STYLES = ["small", "huge", "pi-multiple", "branch", "dyadic", "tiny"]
+STYLES = ANGLE_STYLES + ["near-dup", "mixed"]
 
 
 def gen_matrix(r, rows, cols, style):
+    if style == "near-dup":
+        # class d: consecutive columns equal or differing by ~3e-3 (isApprox-equal): exposes "reuse the previous column" shortcuts
+        base = r.choice(["small", "huge", "branch"])
+        M = []
+        for _ in range(rows):
+            row = [gen_angle(r, base)]
+            for _ in range(cols - 1):
+                row.append(row[-1] if r.random() < 0.2 else row[-1] + 3e-3 * r.uniform(-1, 1) * max(1.0, abs(row[-1]) * 1e-3))
+            M.append(row)
+        return M
+
     def one():
-        s = style if style != "mixed" else r.choice(STYLES[:-1])
+        s = style if style != "mixed" else r.choice(ANGLE_STYLES)
         return gen_angle(r, s)
     return [[one() for _ in range(cols)] for _ in range(rows)]
 
@@ -111,8 +123,8 @@ def gen_addsub(g, shapes, n_extra):
         VARIANT["B"] = r.random() < 0.3
         op = r.choice(["dadd", "dsub"])
         a = gen_matrix(r, rows, cols, st)
-        bstyle = r.choice(STYLES)
-        b = [gen_angle(r, bstyle if bstyle != "mixed" else r.choice(STYLES[:-1])) for _ in range(rows)]
+        bstyle = r.choice(ANGLE_STYLES + ["mixed"])
+        b = [gen_angle(r, bstyle if bstyle != "mixed" else r.choice(ANGLE_STYLES)) for _ in range(rows)]
         if st == "branch" and r.random() < 0.5:
             b = [0.0] * rows                          # the sum is exactly the value at the branch cut
         if st == "pi-multiple" and r.random() < 0.3:
@@ -173,7 +185,7 @@ def gen_mean_matrix(r, rows, cols, st, w, wstyle):
     """returns (a, extra_meta); styles const / arc / sigma build structured rows"""
     extra = {}
     if st == "const":
-        th = [gen_angle(r, r.choice(STYLES[:-1])) for _ in range(rows)]
+        th = [gen_angle(r, r.choice(ANGLE_STYLES)) for _ in range(rows)]
         a = [[th[i]] * cols for i in range(rows)]
         extra["theta"] = th
     elif st == "arc":
